@@ -23,6 +23,7 @@ func c17(r *core.Report) {
 	c17Pure(r)
 	c17Servers(r)
 	c17Complete(r)
+	c17NilArg(r)
 	scratchEscapes(r, "C17.fresh", 1, "openapi2conv")
 	c17Required(r)
 	c17SubRefs(r)
